@@ -87,12 +87,15 @@ def main():
             # StrategyForPython turns that into a panic of the evaluator (the defect class of fix 09348e0)
             if got == "raise" and c["down_inputs"] is not None:
                 bad_raise_only += 1
-                if first_raise is None:
+                # the evaluator only hands over an old record that shares an output with the upstream's
+                # current name: report a case of that kind
+                last_parts = {item.split("=", 1)[0] for item in c["last"].split("|") if item}
+                if first_raise is None and last_parts & set(c["up_parts"]):
                     first_raise = c
             if bad <= 5:
                 print("DISAGREEMENT:", json.dumps(c), "real code says", got)
     print(f"comparison stub vs real history_comparisons.py: {n} cases, {bad} disagreements")
-    if bad and bad == bad_raise_only and vout:
+    if bad and bad == bad_raise_only and first_raise is not None and vout:
         with open(vout, "w") as f:
             json.dump({"property": "C06", "cmp_case": first_raise, "clause": "comparison-callback-raises",
                        "message": "history_comparisons.history_is_different raises on a dependency comparison (the evaluator panics: 'History comparison failed on python side')"}, f, indent=1)
